@@ -330,6 +330,101 @@ def check_grammar(m, name, g, inputs, nomemo=frozenset(), is_lr=False, menu=('no
                     m.violation(f'declared-params-wrong/{which}', grammar=label, input=text, seen=bad)
 
 
+# ------------------------------------------------------------ kinds of semantics objects x short histories
+
+def object_kinds():
+    """name -> factory of a recording semantics object.  What varies is only how the *object* behaves as a Python
+    value (equality, hashability, truthiness, attribute storage) — none of which the property lets matter."""
+    import dataclasses
+
+    class Base:
+        def _note(self, what, ast):
+            self.log.append((what, repr(ast)))
+
+        def x(self, ast):
+            self._note('x', ast)
+            return ('X', ast)
+
+        def _default(self, ast, *a, **k):
+            self._note('_default', ast)
+            return ast
+
+    class Plain(Base):
+        def __init__(self):
+            self.log = []
+
+    @dataclasses.dataclass
+    class EqUnhashable(Base):           # dataclass default: __eq__ by fields, __hash__ = None
+        log: list = dataclasses.field(default_factory=list)
+
+    class EqualHash(Base):              # value semantics: every instance equals every other
+        def __init__(self):
+            self.log = []
+
+        def __eq__(self, other):
+            return type(other) is type(self)
+
+        def __hash__(self):
+            return 7
+
+    class Falsy(Base):                  # a container-like semantics (symbol table) that is empty
+        def __init__(self):
+            self.log = []
+
+        def __len__(self):
+            return 0
+
+    class Slots(Base):
+        __slots__ = ('log',)
+
+        def __init__(self):
+            self.log = []
+
+    return {'plain': Plain, 'eq-unhashable-dataclass': EqUnhashable, 'all-instances-equal': EqualHash, 'falsy-empty-container': Falsy,
+            'slots': Slots}
+    # a class used as the semantics object is rejected by TatSu on purpose ("semantics must be an object instance") and is not a kind here
+
+
+def shard_objects(m, items, inputs=()):
+    kinds = object_kinds()
+    for name in items:
+        g = gs.Grammar(rules=FAMILY[name])
+        label = gs.render_grammar(g)
+        model = impl.compile_text(label)
+        pcls, _src = c02.load_generated(model)
+        for which in ('model', 'generated'):
+            for text in inputs:
+                ref_obj = kinds['plain']()
+                want = run_impl(which, model, pcls, text, semantics=ref_obj)
+                wlog = list(ref_obj.log)
+                if wlog:
+                    m.add('nontrivial')
+                for kname, factory in kinds.items():
+                    # history of two parses with two objects of one kind: each object sees exactly its own parse
+                    first = factory()
+                    r1 = run_impl(which, model, pcls, text, semantics=first)
+                    log1 = list(first.log)
+                    second = factory()
+                    r2 = run_impl(which, model, pcls, text, semantics=second)
+                    m.add('evaluations', 2)
+                    m.add('states')
+                    m.add('transitions', 2)
+                    where = dict(grammar=label, input=text, kind=kname)
+                    for tag, r, lg in (('first', r1, log1), ('second', r2, list(second.log))):
+                        if r[0] == 'exc':
+                            m.violation(f'object-kind/{kname}/parse-raises/{r[1]}/{which}', which_parse=tag, error=r[2][:120], **where)
+                            break
+                        if r != want:
+                            m.violation(f'object-kind/{kname}/result-differs-from-plain-object/{which}', which_parse=tag, got=r, want=want, **where)
+                            break
+                        if lg != wlog:
+                            m.violation(f'object-kind/{kname}/actions-not-called-on-the-supplied-object/{which}', which_parse=tag, calls=lg[:6], want=wlog[:6], **where)
+                            break
+                    else:
+                        if first is not second and list(first.log) != log1:
+                            m.violation(f'object-kind/{kname}/later-parse-called-actions-of-earlier-object/{which}', **where)
+
+
 def canon(v):
     import json
     return json.dumps(v, sort_keys=True, default=repr)
@@ -347,6 +442,7 @@ def shard_family(m, items):
     for name, rules, inputs, is_lr in items:
         g = gs.Grammar(rules=rules)
         check_grammar(m, name, g, inputs, nomemo=frozenset(NONMEMO_RULES.get(name, ())), is_lr=is_lr)
+        impl.rule_reach(m, 'family-rules', name, impl.compile_text(gs.render_grammar(g)), inputs)
         m.sample({'grammar': gs.render_grammar(g), 'inputs': len(inputs)})
 
 
@@ -368,13 +464,16 @@ def run(rc):
         for i in range(0, len(lr), 8):
             items.append((name, rules, lr[i:i + 8], True))
     rc.pmap(shard_family, items, chunk=1)
+    rc.pmap(shard_objects, ['retry', 'named', 'alias'], chunk=1, inputs=list(gs.inputs(['a', 'b', ' '], 3 if quick else 4)))
     exps = [e for e in c01.expressions(3) if c01.in_language(e) is None and 'call' in gs.kinds(e)]
     rc.pmap(shard_exprs, exps, inputs=list(gs.inputs(['a', 'b', ' '], 3 if quick else 4)))
     c = rc.total.counts
     rc.rule = (f'{len(FAMILY) + len(LR_FAMILY)} hand-written grammars (retry after backtracking, @nomemo, parameters, named elements, lookahead+closure, alias, '
                'Python-keyword rule names, left recursion) x all inputs up to a length bound x semantics {none, identity, _default only, tagging with call log, '
                f'FailedSemantics on (rule, value) predicates, {len(EXC_TYPES)} exception types raised from each rule, methods declaring parameters}}, model and generated parser; '
-               'plus every C01 expression calling helper rules x inputs x {none, identity, tagging}; non-trivial = accepted input')
+               'plus every C01 expression calling helper rules x inputs x {none, identity, tagging}; plus kinds of semantics *objects* (plain, dataclass with '
+               'field equality and no hash, all instances equal, falsy empty container, __slots__) x two-parse histories with two '
+               'objects of the kind: results and call logs as for a plain object, each object sees its own parse only; non-trivial = accepted input')
     rc.coverage.update({'states': c.get('states', 0), 'transitions': c.get('transitions', 0),
                         'traces_validated_against_impl': c.get('states', 0), 'programs': c.get('programs', 0)})
     rc.assumptions += ['reference: the evaluator runs actions as call-backs with no memoisation; the implementation may call an action fewer times (memo) but at least once per distinct successful (rule, position)',
